@@ -61,8 +61,9 @@ func c03Prog(N, M int) *Prog {
 		// a parallel gateway does not evaluate conditions: every other outgoing flow carries one that is false
 		// ("again" is false whenever the gateway fires for the last time, and a constant false otherwise)
 		cond := ""
-		if c03CondOut && j%2 == 1 {
-			cond = "1 == 2"
+		if c03CondOut {
+			// ... and what such a condition says or whether it can be evaluated at all does not matter either
+			cond = []string{"1 == 2", "${legacy.expression}", "1 + 1", "no_such_variable > 3"}[j%4]
 		}
 		p.Flow("G", fmt.Sprintf("U%d", j), cond)
 		p.Flow(fmt.Sprintf("U%d", j), "J", "")
